@@ -3,12 +3,12 @@ package checks
 import (
 	"bytes"
 	"encoding"
-	"reflect"
 	"encoding/json"
 	"encoding/xml"
 	"fmt"
 	"os"
 	"path/filepath"
+	"reflect"
 	"regexp"
 	"sort"
 	"strings"
